@@ -347,9 +347,12 @@ def _result_paths(f, call_block):
                 elif is_res(c) and op_const(a) == 0:
                     yield ("rel", tuple(sorted({"lt": "gt", "gt": "lt", "eq": "eq"}[x] for x in rs)))
 
+    # the return place, and the locals moved into it whole (the Result of an inlined `check(result)` helper returned as the tail expression)
+    ret_locals = {l for (l, p_) in _place_class(f, {(0, ())}) if not p_ and f.local_ty(l) == f.local_ty(0)}
+
     def block_fact(b):
         for st in f.stmts(b):
-            if st["s"] == "assign" and st["rv"]["r"] == "agg" and st["lhs"]["l"] == 0:
+            if st["s"] == "assign" and st["rv"]["r"] == "agg" and st["lhs"]["l"] in ret_locals and not st["lhs"].get("p") and (st["rv"]["kind"].get("adt") or "") == "std::result::Result":
                 yield ("ret", st["rv"]["kind"].get("variant"))
         tt = f.term(b)
         if tt["t"] == "call":
@@ -1025,8 +1028,9 @@ def rule_frag_route(ctx, cfg, F):
                 pushes.append(b)
         ffname = strip_generics(ff.path)
         pair_block = pair[1] if pair[0] == "chan" else anchors[1][pair[1]]
-        frag_sites = [b for b, t in f.calls() if strip_generics(callee_name(t)) == ffname and f.dominates(pair_block, b)]
-        if pushes and frag_sites and all(any(f.dominates(p, s_) for p in pushes) for s_ in frag_sites):
+        from vlib.flow import feasible_reach_without
+        frag_sites = [b for b, t in f.calls() if strip_generics(callee_name(t)) == ffname and (f.dominates(pair_block, b) or not feasible_reach_without(f, [b], [pair_block]))]
+        if pushes and frag_sites and (all(any(f.dominates(p, s_) for p in pushes) for s_ in frag_sites) or not feasible_reach_without(f, frag_sites, pushes)):
             R.ok("the receiving half of the same pair is appended to the descriptor list before the fragmented first-fragment call", f.loc(pushes[0]), cfg)
         else:
             R.violate("%s:dedicated-receiver-not-attached" % f.path, "the receiving half of the per-message pair is not appended to the descriptor list before the fragmented first fragment is sent", f.path, f.loc(pair_block), config=cfg)
